@@ -127,7 +127,10 @@ func (v *ScriptView) writeCreateSQLForAColumn(attrType *sysl.Type, tableName, at
 	if isPrimaryKey {
 		*primaryKeys = append(*primaryKeys, attrName)
 	}
-	if typeRef := attrType.GetTypeRef(); typeRef != nil {
+	if typeRef := attrType.GetTypeRef(); typeRef != nil && len(typeRef.GetRef().Path) < 2 {
+		v.logger.Warnf("column %s.%s has no type: its reference does not name a table and a column", tableName, attrName)
+		s = fmt.Sprintf("  %s ,\n", attrName)
+	} else if typeRef != nil {
 		path0 := typeRef.GetRef().Path[0]
 		path1 := typeRef.GetRef().Path[1]
 		datatype := visitedAttributes[path0+"."+path1]
@@ -188,7 +191,9 @@ func (v *ScriptView) writeModifySQLForAColumn(attrTypeOld, attrTypeNew *sysl.Typ
 	}
 	datatype := ""
 	fkName := strings.ToUpper(tableName + "_" + attrName + "_FK")
-	if typeRefNew != nil {
+	if typeRefNew != nil && len(typeRefNew.GetRef().Path) < 2 {
+		v.logger.Warnf("column %s.%s is ignored: its reference does not name a table and a column", tableName, attrName)
+	} else if typeRefNew != nil {
 		datatype = visitedAttributes[typeRefNew.GetRef().Path[0]+"."+typeRefNew.GetRef().Path[1]]
 		if typeRefOld == nil {
 			// typeref added. Add Foreign Key Constraint
